@@ -9,6 +9,7 @@
       is a key of blocked_readers / blocked_writers / stopped in the snapshot;
     - [inv_wake] (condition part), checked at quiescence: no operation completes when its task is
       polled with a fresh future although nobody woke it (record 30 with lost = 1);
+    - [inv_drv]: a live connection driver is runnable or its waker is stored in [State::driver];
     - [inv_ref_alive]/[inv_ref_dead]: ref_count = live handles (+ live stopped() futures), minus
       one once the connection driver has ended;
     - [inv_data]/[inv_dgram]: bytes returned by reads — across dropped and restarted futures — are
@@ -133,8 +134,17 @@ Definition ref_ok (s : ms) (ep : Z) : bool :=
   let expect := getd (m_handles s) (k1 ep) 0 + getd (m_stoplive s) (k1 ep) 0 in
   Z.eqb (snap_rc sn) (if zmem ep (m_drvdead s) then expect - 1 else expect).
 
+(** [inv_drv]: a live connection driver is runnable or has left its waker in [State::driver] *)
+Definition drv_ok (s : ms) (ep : Z) : bool :=
+  let sn := getd (m_snap s) (k1 ep) [] in
+  if negb (snap_alive sn) || zmem ep (m_drvdead s) then true else
+  match aget (m_tep s) (2, ep) with
+  | Some t => zmem t (m_run s) || Z.eqb (nth 5 sn 0) 1
+  | None => true
+  end.
+
 Definition step_end_ok (s : ms) : bool :=
-  forallb (wake_ok s) (m_pend s) && ref_ok s 0 && ref_ok s 1.
+  forallb (wake_ok s) (m_pend s) && ref_ok s 0 && ref_ok s 1 && drv_ok s 0 && drv_ok s 1.
 
 Definition peer (ep : Z) : Z := 1 - ep.
 
@@ -191,7 +201,10 @@ Definition step (s : ms) (r : list Z) : option ms :=
   if m_ended s then None else
   let tg := tag r in
   if Z.eqb tg 33 then      (* TASK_NEW *)
-    Some (upd_ms s (m_pend s) (aset (m_tep s) (k1 (fld r 2)) (fld r 4)) (zadd (fld r 2) (m_run s)) (m_self s) (m_ops s))
+    let tep := aset (m_tep s) (k1 (fld r 2)) (fld r 4) in
+    (* (2, ep) -> the connection driver task of that endpoint *)
+    let tep := if Z.eqb (fld r 3) 1 then aset tep (2, fld r 4) (fld r 2) else tep in
+    Some (upd_ms s (m_pend s) tep (zadd (fld r 2) (m_run s)) (m_self s) (m_ops s))
   else if Z.eqb tg 21 then (* WAKE *)
     let t := fld r 2 in
     if Z.eqb (fld r 3) t then Some (upd_ms s (m_pend s) (m_tep s) (m_run s) (zadd t (m_self s)) (m_ops s))
